@@ -1,5 +1,21 @@
 """Stream `matrix` (C13): every input file type x output format x output mode x colour mode x condensed flag x
-documents with/without differences, through the real command line in-process.  Observation = error enum."""
+documents with/without differences, through the real command line in-process.  Observation = error enum + the `print` / `print_*`
+methods of graphtage that the run entered (harness/handlercov.py, sys.monitoring).
+
+Document sets (`content(kind, which, docset)`):
+  0  the original pair          1  exotic values (NaN, bytes, tuples, binary plist, namespaces, CDATA, awkward CSV)
+  2  values without a node type (yaml / plist)
+  3 - 6  SHAPES: every leaf type changed (float, int, bool, strings), leaf <-> container and list <-> dict replacements, removed /
+         inserted containers, list root, scalar root against container root, empty documents - without null / non-finite numbers
+  7 / 8  pickle only: pickled OBJECTS (OrderedDict, Fraction, date, a function reference, Namespace, Counter, sets of tuples, a tuple
+         key), protocol 4 / protocol 0 - the loader turns them into a Python module (imports, calls, attribute calls, subscripts)
+  9 - 12 pickle only: small VALID pickles on which the current tree ends in an internal error (candidate findings, one key each)
+  lib    graphtage.pydiff.print_diff on Python objects (the only way to the PyObj* handlers; not a command-line path)
+The shape / object / probe documents are FORCED in every (input, format, mode) cell of the quick tier, so the set of handlers that run
+does not depend on the seed.  The list of cases ends with one pseudo-case per handler of the tree under test: `classify` reports for
+each whether a case entered it (`handler:<name>:ran` / `NOT-RUN` / `not reachable from the command line (<reason>)`), and the monitor
+reports `handler-never-run:<name>` for a reachable handler that no case of a whole run entered.
+Measure by hand:  PYTHONPATH=.:/repo /venv/bin/python -m harness.handlercov [--tier quick] [--seed N]"""
 import base64, json, pickle, plistlib
 
 NAME = "matrix"
@@ -243,6 +259,50 @@ def _forced(rng):
     return out
 
 
+# ---- library cases: graphtage.pydiff.print_diff on Python OBJECTS (the only way to the PyObj* handlers; not a command-line path)
+class _Pt:
+    def __init__(self, **kw):
+        self.__dict__.update(kw)
+
+
+def _pyobj_pair(i):
+    pairs = [
+        (_Pt(a=1, b="x"), _Pt(a=2, b="x")),
+        (_Pt(a=1, b=[1, 2], c={"k": 1.5}), _Pt(a=1, b=[1, 3], c={"k": 2.5, "n": None})),
+        ([_Pt(a=1, b=2)], [_Pt(a=1, b=2), 3]),
+        (_Pt(a=1, inner=_Pt(x="hello", y=(1, 2))), _Pt(a=1, inner=_Pt(x="help", z=(1, 2)))),
+        (_Pt(a=1), _Pt(a=1)),
+        ({"o": _Pt(a=b"bytes", s={1, 2})}, {"o": _Pt(a=b"bytez", s={2, 3})}),
+        (_Pt(a=1), [1, 2]),
+    ]
+    return pairs[i]
+
+
+PYOBJ_PAIRS = 7
+
+
+def _impl_pyobj(case):
+    import io
+    import graphtage
+    from graphtage import pydiff
+    from graphtage.printer import Printer, HTMLPrinter
+    from harness import handlercov
+    x, y = _pyobj_pair(case["pair"])
+    opts = graphtage.BuildOptions(allow_key_edits=not case.get("k", False))
+    out = io.StringIO()
+    cls = HTMLPrinter if "--html" in case["color"] else Printer
+    printer = cls(out_stream=out, ansi_color="--color" in case["color"], quiet=True)
+    handlercov.start()
+    handlercov.reset()
+    exc = msg = None
+    try:
+        pydiff.print_diff(x, y, printer=printer, options=opts)
+    except Exception as e:      # noqa
+        exc, msg = type(e).__name__, str(e)[:300]
+    return {"rc": 0, "exc": exc, "msg": msg, "out_len": len(out.getvalue()), "err": "", "argv": ["pydiff.print_diff", "pair%d" % case["pair"]] + case["color"],
+            "handlers": handlercov.seen()}
+
+
 def handler_names():
     """Every `print` / `print_*` method of the graphtage tree under test (listed in a subprocess that imports that tree)."""
     import os, subprocess, sys
@@ -273,6 +333,8 @@ def gen(rng, tier):
                     if i in ("yaml", "plist"):
                         chosen.append({"input": i, "format": f, "mode": m, "color": rng.choice(COLORS), "cond": [], "opts": [], "same": False, "docset": 2})
         cfgs = chosen + _forced(rng)
+    cfgs += [{"lib": "pydiff", "pair": i, "k": k, "color": c} for i in range(PYOBJ_PAIRS) for k in (False, True)
+             for c in (COLORS if tier != "quick" else [rng.choice(COLORS)] + ([COLORS[3]] if i == 0 and not k else []))]
     # one closing pseudo-case per handler: reports (classify) whether any of the cases above entered it
     return cfgs + [{"coverage": n} for n in handler_names()]
 
@@ -305,6 +367,7 @@ NOT_CLI = {
 }
 _RAN = {}        # handler -> number of cases of this run that entered it (filled by monitor, read by the closing pseudo-cases)
 _RAN_OK = {}     # ... and ended without an internal error
+_RAN_LIB = {}    # ... of which library cases
 _MONITORED = [0]
 
 
@@ -316,6 +379,8 @@ def impl(case):
     from harness import clirun, handlercov
     if "coverage" in case:
         return {"rc": 0, "exc": None, "msg": None, "exists": case["coverage"] in handlercov.all_handlers()}
+    if "lib" in case:
+        return _impl_pyobj(case)
     ext = {"pickle": "pkl"}.get(case["input"], case["input"])
     a = content(case["input"], 1, case.get("docset", 0))
     b = a if case["same"] else content(case["input"], 2, case.get("docset", 0))
@@ -346,6 +411,8 @@ def _msg_class(msg):
 
 
 def failure_key(case, obs):
+    if "lib" in case:
+        return f"{obs['exc']}:lib-{case['lib']}:{_msg_class(obs.get('msg'))}"
     mode = {"": "full", "-e": "edits", "-d": "digest"}["".join(case["mode"])]
     if case.get("docset", 0) >= 9:       # loader / pairing probes: the failure does not depend on format or mode
         return f"{obs['exc']}:{case['input']}-probe:docset{case['docset']}:{_msg_class(obs.get('msg'))}"
@@ -368,11 +435,15 @@ def monitor(case, obs):
     _MONITORED[0] += 1
     for h in obs.get("handlers", []):
         _RAN[h] = _RAN.get(h, 0) + 1
+        if "lib" in case:
+            _RAN_LIB[h] = _RAN_LIB.get(h, 0) + 1
         if not obs["exc"]:
             _RAN_OK[h] = _RAN_OK.get(h, 0) + 1
     if obs["exc"]:
         hits.append({"prop": "C13", "key": failure_key(case, obs),
                      "what": f"{' '.join(obs['argv'])}: internal error {obs['exc']}: {obs['msg']}"})
+    elif "lib" in case:
+        pass
     elif obs["rc"] not in (0, 1):
         hits.append({"prop": "C13", "key": f"bad-exit:{case['input']}->{_fmt(case)}", "what": f"{' '.join(obs['argv'])}: exit status {obs['rc']}; stderr {obs['err'][:120]!r}"})
     elif case["same"] and obs["rc"] != 0:
@@ -387,10 +458,14 @@ def classify(case, obs):
         n = case["coverage"]
         ran, ok = _RAN.get(n, 0), _RAN_OK.get(n, 0)
         if n in NOT_CLI:
-            return f"handler:{n}:" + ("RAN-but-listed-as-unreachable" if ran else "not reachable from the command line (" + NOT_CLI[n] + ")")
+            lib = _RAN_LIB.get(n, 0)
+            return f"handler:{n}:not reachable from the command line (" + NOT_CLI[n] + ")" + \
+                (" - RAN in a command-line case: the review is stale" if ran > lib else " - ran in the library cases (pydiff.print_diff)" if lib else "")
         if not ran:
             return f"handler:{n}:NOT-RUN"
         return f"handler:{n}:ran" + ("" if ok else " (only in runs that ended in an internal error)")
+    if "lib" in case:
+        return f"lib:{case['lib']}:pair{case['pair']}:{'-k' if case.get('k') else 'defaults'}:{'+'.join(case['color'])}"
     mode = {"": "full", "-e": "edits", "-d": "digest"}["".join(case["mode"])]
     return f"{case['input']}->{_fmt(case)}:{mode}:{'+'.join(case['color'])}:{''.join(case.get('opts', [])) or 'defaults'}:docset{case.get('docset', 0)}"
 
